@@ -57,6 +57,22 @@ def kinds_2d(rng, m, n):
     ]
 
 
+FITTER_MODES = ['x', 'nox', 'second', 'nox-second', 'only-x', 'only-z']
+
+
+def make_fitter(two_d, x, z, odt, fmode):
+    from pybaselines import Baseline, Baseline2D
+    if not two_d:
+        return Baseline(None if fmode.startswith(('nox', 'only')) else x, output_dtype=odt)
+    if fmode.startswith('nox'):
+        return Baseline2D(None, None, output_dtype=odt)
+    if fmode == 'only-x':
+        return Baseline2D(x, None, output_dtype=odt)
+    if fmode == 'only-z':
+        return Baseline2D(None, z, output_dtype=odt)
+    return Baseline2D(x, z, output_dtype=odt)
+
+
 def well_formed(name, two_d, data, b, p, out_dtype, max_iter, tol, budget_code, exits=None):
     """list of defects of a returned pair"""
     probs = []
@@ -159,9 +175,16 @@ def correspond(ctx):
                             tol = kw.get('tol', e['params']['tol'])
                     if 'baseline_points' in kw and kind in ('offset', 'tiny', 'negative'):
                         pass
+                    # how the fitter came to be: created with the x (z) values or without some of them, and whether the checked call is
+                    # its first one (the ordering clause needs the 'noisy' / 'unsorted' pair on the same given x)
+                    fmode = 'x'
+                    if kind not in ('noisy', 'unsorted') and rng.random() < 0.5:
+                        fmode = FITTER_MODES[int(rng.integers(1, len(FITTER_MODES)))]
                     try:
                         with np.errstate(all='ignore'):
-                            fit = Baseline2D(x, z, output_dtype=odt) if two_d else Baseline(x, output_dtype=odt)
+                            fit = make_fitter(two_d, x, z, odt, fmode)
+                            if fmode.endswith('second'):
+                                getattr(fit, name)(Y, **kw)
                             b, p = getattr(fit, name)(Y, **kw)
                         outcome = 'returned'
                     except Exception as ex:
@@ -169,15 +192,16 @@ def correspond(ctx):
                         ctx.count('raised:' + type(ex).__name__)
                         if isinstance(ex, (SystemExit, KeyboardInterrupt)):
                             raise
-                    canon = (dim, name, kind, str(n), mi, repr(sorted((k, repr(v)) for k, v in kw.items() if kw0.get(k, None) is not v and k != 'max_iter')) if variant else '')
+                    canon = (dim, name, kind, fmode, str(n), mi, repr(sorted((k, repr(v)) for k, v in kw.items() if kw0.get(k, None) is not v and k != 'max_iter')) if variant else '')
                     ctx.count('kwargs:' + ('variant' if variant else 'default'))
                     ctx.case(canon, nontrivial=outcome == 'returned',
                              sample={'method': f'{dim}:{name}', 'data': kind, 'size': n if not isinstance(n, tuple) else list(n), 'max_iter': mi, 'outcome': outcome}
                              if len(ctx.samples) < 6 and kind != 'noisy' else None)
                     ctx.count('kind:' + kind)
+                    ctx.count('fitter:' + fmode)
                     if outcome != 'returned':
                         continue
-                    meta = {'method': name, 'two_d': two_d, 'kind': kind, 'size': n if not isinstance(n, tuple) else list(n), 'max_iter': mi,
+                    meta = {'method': name, 'two_d': two_d, 'kind': kind, 'fitter': fmode, 'size': n if not isinstance(n, tuple) else list(n), 'max_iter': mi,
                             'kwargs': {k: (v if not isinstance(v, np.ndarray) else v.tolist()) for k, v in kw.items()}}
                     for pr in well_formed(name, two_d, Y, b, p, odt, mi if has_mi else None, tol, golden.get(('2d.' if two_d else '') + name)):
                         dis.append(Disagreement('c01.shape', f'{dim}:{name}:wellformed', f'{dim} {name} ({kind} data, size {n}): {pr}', meta, True))
@@ -327,7 +351,9 @@ def replay(ctx, data):
                     z = None
                 kw = dict(r['kwargs'])
                 with np.errstate(all='ignore'):
-                    fit = Baseline2D(x, z, output_dtype=odt) if two_d else Baseline(x, output_dtype=odt)
+                    fit = make_fitter(two_d, x, z, odt, r.get('fitter', 'x'))
+                    if r.get('fitter', 'x').endswith('second'):
+                        getattr(fit, name)(Y, **kw)
                     b, p = getattr(fit, name)(Y, **kw)
                 if b.dtype.kind == 'f' and not np.all(np.isfinite(b)):
                     return f'{name}: non-finite baseline for finite noisy data'
